@@ -28,8 +28,8 @@
 #define OLD_WPOS __CPROVER_old(dest->wpos)
 /* *dest == old *dest ++ pad(VAL): length, and where the witness character of VAL (if it has it) ends up; an earlier witness stays put */
 #define APPENDED_PADDED(VAL) \
-  (dest->len == OLD_LEN + PD_LEN(SP, (VAL).len) && \
-   dest->wpos == (OLD_WPOS >= 0 ? OLD_WPOS : (PD_WPOS(SP, (VAL).len, (VAL).wpos) >= 0 ? OLD_LEN + PD_WPOS(SP, (VAL).len, (VAL).wpos) : -1)))
+  ((long long)dest->len == (long long)OLD_LEN + (long long)PD_LEN(SP, (VAL).len) && \
+   (long long)dest->wpos == (OLD_WPOS >= 0 ? (long long)OLD_WPOS : (PD_WPOS(SP, (VAL).len, (VAL).wpos) >= 0 ? (long long)OLD_LEN + (long long)PD_WPOS(SP, (VAL).len, (VAL).wpos) : -1LL)))
 #define COMMON_REQ (TOKEN_OK(self) && __CPROVER_is_fresh(lmsg, sizeof(*lmsg)) && LMSG_OK(lmsg) && __CPROVER_is_fresh(dest, sizeof(*dest)) && QSTRING_VALID(*dest))
 #ifdef KF_C12_NO_ZWSP_IN_VALUES
 #define KF_REQ (g_wch != MARK)          /* the recorded finding's input class excluded: no U+200B among the value characters */
@@ -68,9 +68,9 @@ __CPROVER_ensures(QSTRING_VALID(*dest))
 /* present (with ANY value, also an empty one): the value's text, padded */
 __CPROVER_ensures(!ATTR_PRESENT || (g_val_kind == SRC_VARIANT && g_val_src == __CPROVER_uninterpreted_hash_value(lmsg->m_attributes.id, self->m_attributeName.id) && APPENDED_PADDED(g_val)))
 /* missing and not optional: the placeholder text "%{name}" (3 characters around the name), padded */
-__CPROVER_ensures(!(!ATTR_PRESENT && !self->m_optional) || (dest->len == OLD_LEN + PD_LEN(SP, self->m_attributeName.len + 3) && dest->wpos == OLD_WPOS))
+__CPROVER_ensures(!(!ATTR_PRESENT && !self->m_optional) || ((long long)dest->len == (long long)OLD_LEN + (long long)PD_LEN(SP, self->m_attributeName.len + 3) && dest->wpos == OLD_WPOS))
 /* missing and optional: N characters before removed (when there are that many), M delete markers appended */
-__CPROVER_ensures(!(!ATTR_PRESENT && self->m_optional) || (dest->len == OLD_LEN - ((RB > 0 && OLD_LEN >= RB) ? RB : 0) + (RA > 0 ? RA : 0) && dest->tail >= (RA > 0 ? RA : 0)
+__CPROVER_ensures(!(!ATTR_PRESENT && self->m_optional) || ((long long)dest->len == (long long)OLD_LEN - ((RB > 0 && OLD_LEN >= RB) ? (long long)RB : 0LL) + (RA > 0 ? (long long)RA : 0LL) && dest->tail >= (RA > 0 ? RA : 0)
                    && dest->wpos == (OLD_WPOS < OLD_LEN - ((RB > 0 && OLD_LEN >= RB) ? RB : 0) ? OLD_WPOS : -1)));
 #if defined(LOOPKIND_AttributeToken_appendToString_0_for)
 #define LOOP_AttributeToken_appendToString_0 \
@@ -86,8 +86,8 @@ void LiteralToken_appendToString(LiteralToken *self, LogMessage *lmsg, QString *
 __CPROVER_requires(COMMON_REQ && QSTRING_VALID(self->m_text) && KF_REQ)
 __CPROVER_assigns(*dest)
 __CPROVER_ensures(QSTRING_VALID(*dest))
-__CPROVER_ensures(dest->len == OLD_LEN - OLD_TAIL + (OLD_TAIL < TXT.len ? TXT.len - OLD_TAIL : 0))
-__CPROVER_ensures(dest->wpos == (OLD_WPOS >= 0 ? OLD_WPOS : ((TXT.wpos >= OLD_TAIL && OLD_TAIL < TXT.len) ? OLD_LEN - OLD_TAIL + TXT.wpos - OLD_TAIL : -1)))
+__CPROVER_ensures((long long)dest->len == (long long)OLD_LEN - (long long)OLD_TAIL + (OLD_TAIL < TXT.len ? (long long)TXT.len - (long long)OLD_TAIL : 0LL))
+__CPROVER_ensures(dest->wpos == (OLD_WPOS >= 0 ? OLD_WPOS : ((TXT.wpos >= OLD_TAIL && OLD_TAIL < TXT.len) ? (int)((long long)OLD_LEN - (long long)OLD_TAIL + (long long)TXT.wpos - (long long)OLD_TAIL) : -1)))
 __CPROVER_ensures(!(OLD_TAIL == 0 && TXT.len >= 1) || (dest->cl == TXT.cl && dest->tail == (TXT.tail == TXT.len ? TXT.len : TXT.tail)));
 #if defined(LOOPKIND_LiteralToken_appendToString_0_while)
 #define LOOP_LiteralToken_appendToString_0 \
